@@ -22,3 +22,17 @@ Lemma cleaner_sweep_one_step :
   one_step "server.State.UsedRandomCleaner" "State.usedRandomM"
     [is_read "State.UsedRandom"; is_write "State.UsedRandom"] [] = true.
 Proof. vm_compute. reflexivity. Qed.
+
+(* The model's cache loses entries ONLY through the cleaner's rule (sighting older than twice
+   the tolerance: C08_cache_sound needs every entry whose packet is still acceptable to be
+   there).  In the source: whatever deletes from UsedRandom, assigns the map anew or takes its
+   address is UsedRandomCleaner; the map is never handed on as a value (no alias through which
+   a helper could evict); every delete of the package is on a struct field; and registerRandom
+   only looks up and stores. *)
+Lemma replay_entries_leave_only_through_the_cleaner :
+  removed_only_in "server." "State.UsedRandom" ["server.State.UsedRandomCleaner"] = true
+  /\ never_aliased "server." "State.UsedRandom" = true
+  /\ deletes_are_on_fields "server." = true.
+Proof. repeat split; vm_compute; reflexivity. Qed.
+Lemma registerRandom_only_inserts : only_inserts "server.State.registerRandom" "State.UsedRandom" = true.
+Proof. vm_compute. reflexivity. Qed.
